@@ -42,6 +42,6 @@ def c08(ctx: Ctx):
                 "ExcludeWriteOnlyValidations x MultiError) + body schema behind 6 wraps + part hdr (spec/HeaderUniverse.tla: 19 header schemas x 34 texts x required x "
                 "explode x options; two declared headers; undeclared header; two field lines; a definition named Content-Type; $ref / nil-Options variants) + every history "
                 "of spec/BodyKeep.tla (validate / read calls over 2-3 responses); every case is distinct and judged")
-    ctx.validate("Trace_C08", "Trace_C08.cfg", logp, chunk_lines=1500)
+    ctx.validate("Trace_C08", "Trace_C08.cfg", logp, chunk_lines=max(1500, ctx.evaluations // 32 + 1))
     if not ctx.replay:
         history_clause(ctx)
